@@ -105,6 +105,55 @@ func runC06(c *hc.Ctx) error {
 			c.Violate(hc.Violation{What: "SnapPolygon panicked on an in-grid polygon next to a border between coarse quadrants of a real grid: " + r.Panic, Input: caseJSON(g, poly, ids, cfg, nil), Observed: r.PanicMsg})
 		}
 	}
+	// vertices within a few integer units (1e-10) of a border between deepest-level pixels, far from the corner of the
+	// grid (offsets beyond 2^53 units: a quotient computed in floating point lands in the neighbouring pixel there), one
+	// of them given twice in a row (a zero-length edge, routed inside one pixel: the pixel its end points are indexed in
+	// must be the pixel the routing looks in)
+	for k := 0; k < c.N(160, 6000); k++ {
+		name := []string{"WebMercatorQuad", "WebMercatorQuad", "WorldMercatorWGS84Quad", "EuropeanETRS89_LAEAQuad"}[k%4]
+		t, err := loadSet(name)
+		if err != nil {
+			continue
+		}
+		id := []int{14, 17, 20, 12}[c.Rng.Intn(4)]
+		if id > maxID(t) {
+			id = maxID(t)
+		}
+		g, err := gridFor(name, t, id, false)
+		if err != nil || g.Deep > 32 || g.Res < 64 {
+			continue
+		}
+		size := int64(1) << g.Deep
+		px := size/2 + size/8 + c.Rng.Int63n(size/4)
+		py := size/2 + size/8 + c.Rng.Int63n(size/4)
+		near := func(p int64, ext int64) int64 { return ext + p*g.Res + []int64{-3, -2, -1, 0, 1, 2}[c.Rng.Intn(6)] }
+		a := Pt{near(px, g.Ext[0]), near(py, g.Ext[1])}
+		b := Pt{near(px+2+c.Rng.Int63n(4), g.Ext[0]), near(py+c.Rng.Int63n(3), g.Ext[1])}
+		d := Pt{near(px+c.Rng.Int63n(4), g.Ext[0]), near(py+2+c.Rng.Int63n(4), g.Ext[1])}
+		ring := []Pt{a, a, b, d}
+		if c.Rng.Intn(3) == 0 {
+			ring = []Pt{a, b, b, d, d}
+		}
+		okRT := true
+		for j := range ring {
+			x, ok1 := fixRoundTrip(ring[j][0])
+			y, ok2 := fixRoundTrip(ring[j][1])
+			okRT = okRT && ok1 && ok2
+			ring[j] = Pt{x, y}
+		}
+		poly := [][]Pt{ring}
+		if !okRT || !g.inGrid(poly) {
+			continue
+		}
+		ids := []int{id}
+		cfg := randCfg(c.Rng)
+		r := runSnap(g, poly, ids, cfg, 20*time.Second)
+		c.Sum.Evaluations++
+		c.Count("real grid, vertices within 3 units of a deepest pixel border, one repeated: " + name)
+		if r.Panic != "" {
+			c.Violate(hc.Violation{What: "SnapPolygon panicked on an in-grid polygon with a repeated vertex next to a pixel border of a real grid: " + r.Panic, Input: caseJSON(g, poly, ids, cfg, nil), Observed: r.PanicMsg})
+		}
+	}
 	// long rings on many tile matrices at once, again and again: work that is split by ring size or by level (goroutines
 	// per level, per part of a ring) and shares maps or buffers takes the whole process down only now and then.  The case
 	// is written to disk before it runs, so that a fatal runtime error still names its input.
